@@ -56,7 +56,24 @@ impl Value {
 		match self {
 			Self::Null => serde_json::Value::Null,
 			Self::Boolean(b) => serde_json::Value::Bool(b),
-			Self::Number(n) => serde_json::Value::Number(n.into()),
+			Self::Number(n) => {
+				// 64-bit integers are kept as such, every other number becomes
+				// the nearest double (`str::parse` is correctly rounded). A
+				// magnitude outside the double range has no `serde_json`
+				// counterpart and becomes `null`, like a non-finite float.
+				if let Some(u) = n.as_u64() {
+					serde_json::Value::Number(u.into())
+				} else if let Some(i) = n.as_i64() {
+					serde_json::Value::Number(i.into())
+				} else {
+					n.as_str()
+						.parse::<f64>()
+						.ok()
+						.and_then(serde_json::Number::from_f64)
+						.map(serde_json::Value::Number)
+						.unwrap_or(serde_json::Value::Null)
+				}
+			}
 			Self::String(s) => serde_json::Value::String(s.into_string()),
 			Self::Array(a) => {
 				serde_json::Value::Array(a.into_iter().map(Value::into_serde_json).collect())
